@@ -5,6 +5,8 @@
 //	dec <cells|ss|emu> <style> <tok>*         impl = cells the real parser returned (emu: final pen)
 //	rt  <cells|ss> <cell>*                    impl = cells after the real encode → parse round trip
 //	rtq <cells|ss> <cell>*                    the same with VAXIS_FORCE_LEGACY_SGR applied
+//	rtl <cells|ss> <lcell>*                   round trip of cells that carry hyperlinks; lcell = hex(g)/style/hex(url)/hex(params);
+//	                                          impl = the cells that came back, same format
 //	encb <cells|ss> <caps> <cell>*            impl = hex of the exact string the real producer wrote (byte level)
 //	decb <cells|ss> <style> <hex> <table>     impl = cells the real parser returned for that exact string; table =
 //	                                          rune length of the first grapheme cluster (uniseg) of the suffix at every rune offset
@@ -432,11 +434,67 @@ func (e *env) decb(which string, dflt vaxis.Style, s string) {
 	e.r.Count("decb:" + which)
 }
 
+func lcellStr(c vaxis.Cell) string {
+	return hexOrDash(c.Grapheme) + "/" + styleStr(c.Style) + "/" + hexOrDash(c.Hyperlink) + "/" + hexOrDash(c.HyperlinkParams)
+}
+
+func parseLCell(t string) (vaxis.Cell, bool) {
+	f := strings.Split(t, "/")
+	if len(f) != 4 {
+		return vaxis.Cell{}, false
+	}
+	g, ok1 := unhex(f[0])
+	st, ok2 := parseStyle(f[1])
+	url, ok3 := unhex(f[2])
+	ps, ok4 := unhex(f[3])
+	st.Hyperlink, st.HyperlinkParams = url, ps
+	return vaxis.Cell{Character: vaxis.Character{Grapheme: g}, Style: st}, ok1 && ok2 && ok3 && ok4
+}
+
+func lcellsStr(cs []vaxis.Cell) string {
+	if len(cs) == 0 {
+		return "-"
+	}
+	out := make([]string, len(cs))
+	for i, c := range cs {
+		out[i] = lcellStr(c)
+	}
+	return strings.Join(out, " ")
+}
+
+func (e *env) doRtl(which string, cells []vaxis.Cell) (res string) {
+	panicked, _ := hx.Guard(func() {
+		switch which {
+		case "cells":
+			res = e.stable(func() string { return lcellsStr(vaxis.ParseStyledString(vaxis.EncodeCells(cells))) })
+		case "ss":
+			ss := &vaxis.StyledString{Cells: cells}
+			res = lcellsStr(e.plain.NewStyledString(ss.Encode(), vaxis.Style{}).Cells)
+		default:
+			res = "bad-op"
+		}
+	})
+	if panicked {
+		return "panic"
+	}
+	return res
+}
+
 func (e *env) exec(op []string) (string, bool) {
 	if len(op) < 2 {
 		return "", false
 	}
 	switch op[0] {
+	case "rtl":
+		var cells []vaxis.Cell
+		for _, t := range op[2:] {
+			c, ok := parseLCell(t)
+			if !ok {
+				return "", false
+			}
+			cells = append(cells, c)
+		}
+		return e.doRtl(op[1], cells), true
 	case "encb":
 		if len(op) < 3 {
 			return "", false
@@ -733,6 +791,52 @@ func (e *env) genRt(rng *gen.Rng) {
 			e.emit(fmt.Sprintf("rtq %s %s %s %s", which, cellStr(withG("a", a)), cellStr(withG("b", b)), cellStr(withG("c", vaxis.Style{}))))
 			r.Count("rtq-extcolour:" + which)
 		}
+	}
+	// cells that carry hyperlinks (OSC 8): graphemes and styles must come back; NewStyledString also restores the link
+	urls := []string{"", "http://a", "https://example.org/x?y=1;z=2", "file:///tmp/ü"}
+	params := []string{"", "id=7", "id=a:foo=b"}
+	nl := 600
+	if r.Thorough {
+		nl = 20000
+	}
+	for i := 0; i < nl; i++ {
+		which := "cells"
+		if i%2 == 1 {
+			which = "ss"
+		}
+		k := 1 + rng.Intn(5)
+		var cs []string
+		var real []vaxis.Cell
+		st := randStyle(rng)
+		for j := 0; j < k; j++ {
+			if rng.Chance(1, 2) {
+				st = randStyle(rng)
+			}
+			if rng.Chance(2, 3) {
+				// parameters are a function of the URL: Encode re-sends OSC 8 only when the URL changes
+				// (cursor.Hyperlink != next.Hyperlink), so a change of the parameters alone is not encoded
+				ui := rng.Intn(len(urls))
+				st.Hyperlink = urls[ui]
+				st.HyperlinkParams = ""
+				if st.Hyperlink != "" {
+					st.HyperlinkParams = params[ui%len(params)]
+				}
+			}
+			c := withG(gen.Pick(rng, graphemes), st)
+			real = append(real, c)
+			cs = append(cs, lcellStr(c))
+		}
+		e.emit(fmt.Sprintf("rtl %s %s", which, strings.Join(cs, " ")))
+		r.Count("rtl:" + which)
+		// the same string at the byte level, read by both parsers
+		str := ""
+		if which == "cells" {
+			str = vaxis.EncodeCells(real)
+		} else {
+			str = (&vaxis.StyledString{Cells: real}).Encode()
+		}
+		e.decb("cells", vaxis.Style{}, str)
+		e.decb("ss", vaxis.Style{}, str)
 	}
 	// single transitions of one field, both directions, for both codecs
 	vals := []vaxis.Style{{}, {Foreground: vaxis.IndexColor(1)}, {Foreground: vaxis.IndexColor(9)}, {Foreground: vaxis.IndexColor(200)},
